@@ -138,7 +138,9 @@ INDEX_OPS = [
 
 class Spec:
     def __init__(self, params):
-        ops = [["ctor", [["a", "Afit"], ["b", "V3fit"], ["c", "Aifit"]]]]
+        ops = [["ctor", [["a", "Afit"], ["b", "V3fit"], ["c", "Aifit"]]],
+               # the same group, its Vector built from the columns of one 2-d array (Vector(*block.T)): components are strided views of one buffer
+               ["ctor", [["a", "Afit"], ["b", "V3fit"], ["c", "Aifit"]], "vector-from-columns-of-one-array"]]
         for k, kinds in params["sets"]:
             for kind in kinds:
                 ops.append(["set", k, kind])
@@ -181,7 +183,16 @@ class Spec:
         # every other instance attribute is part of the state (a cached shape, a dirty flag, ...): a finer canonical
         # form only costs time, a coarser one would merge states with different futures
         hidden = sorted((k, repr(v)) for k, v in vars(g).items() if k not in ("_container", "parent"))
-        return [[[k, describe(g._container[k])] for k in g._container], same, impl.aliased, hidden]
+        # ... and so is the memory layout of every member (views of a larger buffer, strides): equal numbers in another layout
+        # are another state
+        layout = []
+        for k in g._container:
+            v = g._container[k]
+            for p in (list(v._xyz.values()) if isinstance(v, osyris.Vector) else [v]):
+                a = np.asarray(p._array)
+                b = a.base
+                layout.append([bool(a.flags.c_contiguous), list(a.strides), None if b is None else [list(np.shape(b)), int(a.__array_interface__["data"][0] - np.asarray(b).__array_interface__["data"][0])]])
+        return [[[k, describe(g._container[k])] for k in g._container], same, impl.aliased, hidden, layout]
 
     # -- model helpers
     @staticmethod
@@ -237,7 +248,11 @@ class Spec:
             vals = {}
             for k, kind in op[1]:
                 arrays = model_arrays(kind, (N0,), 1)
-                vals[k] = build_value(kind, arrays)
+                if len(op) > 2 and kind in ("V3fit", "V2fit"):
+                    block = np.ascontiguousarray(np.stack(arrays, axis=1))
+                    vals[k] = osyris.Vector(*block.T, unit=UNIT[kind])
+                else:
+                    vals[k] = build_value(kind, arrays)
                 model[k] = {"kind": kind, "arrays": arrays, "unit": UNIT[kind], "ver": 1}
             impl.obj = g = osyris.Datagroup(vals)
             impl.aliased = False
